@@ -1,196 +1,386 @@
-import FormulaicVerif.Spec.Nulls
-import Mathlib.Data.List.Basic
-import Mathlib.Data.List.Nodup
-import Mathlib.Data.List.Perm.Basic
+import FormulaicVerif.Proofs.C06Values
+/-! Helper lemmas for C06, part 2: the encoders, `_combine_columns`, `get_model_matrix` and the
+entry points of the tree under test (`current`), and the legacy label-based drop. -/
 namespace FormulaicVerif.Proofs.C06
 open FormulaicVerif.Model.Nulls FormulaicVerif.Spec.Nulls
 
 variable {ρ L : Type}
 
-/-! ### the drop set -/
-theorem mem_setAdd (s : DropSet) (x y : Nat) : y ∈ setAdd s x ↔ y ∈ s ∨ y = x := by
-  unfold setAdd
-  split
-  · constructor
-    · exact Or.inl
-    · rintro (h | rfl) <;> assumption
-  · simp
+/-! ### from a value to its columns -/
 
-theorem nodup_setAdd (s : DropSet) (x : Nat) (h : s.Nodup) : (setAdd s x).Nodup := by
-  unfold setAdd
-  split
-  · exact h
-  · rename_i hx
-    rw [List.nodup_append]
-    refine ⟨h, by simp, ?_⟩
-    intro a ha b hb
-    simp at hb
-    subst hb
-    exact fun e => hx (e ▸ ha)
-
-theorem mem_setUpdate (xs : List Nat) (s : DropSet) (y : Nat) : y ∈ setUpdate s xs ↔ y ∈ s ∨ y ∈ xs := by
-  unfold setUpdate
-  induction xs generalizing s with
-  | nil => simp
-  | cons x r ih =>
-    simp only [List.foldl_cons, ih, mem_setAdd, List.mem_cons]
-    tauto
-
-theorem nodup_setUpdate (xs : List Nat) (s : DropSet) (h : s.Nodup) : (setUpdate s xs).Nodup := by
-  unfold setUpdate
-  induction xs generalizing s with
-  | nil => simpa
-  | cons x r ih => exact ih _ (nodup_setAdd s x h)
-
-theorem setUpdate_append (s : DropSet) (xs ys : List Nat) :
-    setUpdate (setUpdate s xs) ys = setUpdate s (xs ++ ys) := by
-  simp [setUpdate, List.foldl_append]
-
-theorem mem_insertSorted (x y : Nat) (l : List Nat) : y ∈ insertSorted x l ↔ y = x ∨ y ∈ l := by
-  induction l with
-  | nil => simp [insertSorted]
-  | cons a r ih =>
-    unfold insertSorted
-    split
+mutual
+theorem memberColumns_eq (x : Value ρ) : memberColumns x = (leaves x).map colShape := by
+  cases x with
+  | dict items =>
+    simp only [memberColumns, leaves]
+    exact itemColumns_eq items
+  | none => rfl
+  | scalar k c => rfl
+  | pylist cells => rfl
+  | nwSeries cells => rfl
+  | series cells => rfl
+  | array0 c => rfl
+  | array1 cells => rfl
+  | array2 n cols => rfl
+  | arrayN n => rfl
+  | frame n cols => rfl
+  | sparse csc n cols => rfl
+  | other => rfl
+theorem itemColumns_eq (items : List (Bool × Value ρ)) :
+    itemColumns items = (leavesItems items).map colShape := by
+  cases items with
+  | nil => rfl
+  | cons it r =>
+    obtain ⟨hid, x⟩ := it
+    simp only [itemColumns, leavesItems, List.map_append, itemColumns_eq r]
+    cases hid
+    · simp only [Bool.false_eq_true, if_false, memberColumns_eq x]
     · simp
-    · simp only [List.mem_cons, ih]; tauto
+end
 
-theorem length_insertSorted (x : Nat) (l : List Nat) : (insertSorted x l).length = l.length + 1 := by
-  induction l with
-  | nil => rfl
-  | cons a r ih =>
-    unfold insertSorted
-    split <;> simp [ih]
+mutual
+theorem leaves_memberOK (n : Nat) (x : Value ρ) (h : MemberOK n x) : ∀ l ∈ leaves x, LeafOK n l := by
+  cases x with
+  | dict items =>
+    simp only [leaves]
+    exact leavesItems_membersOK n items h
+  | none => exact absurd h (by simp [MemberOK])
+  | scalar k c =>
+    intro l hl
+    simp only [leaves, List.mem_singleton] at hl
+    subst hl
+    cases k <;> exact h
+  | pylist cells =>
+    intro l hl
+    simp only [leaves, List.mem_singleton] at hl
+    subst hl
+    exact h
+  | nwSeries cells =>
+    intro l hl
+    simp only [leaves, List.mem_singleton] at hl
+    subst hl
+    exact h
+  | series cells =>
+    intro l hl
+    simp only [leaves, List.mem_singleton] at hl
+    subst hl
+    exact h
+  | array0 c => exact absurd h (by simp [MemberOK])
+  | array1 cells =>
+    intro l hl
+    simp only [leaves, List.mem_singleton] at hl
+    subst hl
+    exact h
+  | array2 k cols => exact absurd h (by simp [MemberOK])
+  | arrayN k => exact absurd h (by simp [MemberOK])
+  | frame k cols => exact absurd h (by simp [MemberOK])
+  | sparse csc k cols => exact absurd h (by simp [MemberOK])
+  | other => exact absurd h (by simp [MemberOK])
+theorem leavesItems_membersOK (n : Nat) (items : List (Bool × Value ρ)) (h : MembersOK n items) :
+    ∀ l ∈ leavesItems items, LeafOK n l := by
+  cases items with
+  | nil => simp [leavesItems]
+  | cons it r =>
+    obtain ⟨hid, x⟩ := it
+    obtain ⟨h1, h2⟩ : MemberOK n x ∧ MembersOK n r := h
+    intro l hl
+    simp only [leavesItems, List.mem_append] at hl
+    rcases hl with hl | hl
+    · cases hid
+      · simp only [Bool.false_eq_true, if_false] at hl
+        exact leaves_memberOK n x h1 l hl
+      · simp at hl
+    · exact leavesItems_membersOK n r h2 l hl
+end
 
-theorem mem_sorted (s : DropSet) (y : Nat) : y ∈ sorted s ↔ y ∈ s := by
-  unfold sorted
-  induction s with
-  | nil => simp
-  | cons a r ih => simp only [List.foldr_cons, mem_insertSorted, ih, List.mem_cons]
+mutual
+theorem checkable_memberOK (n : Nat) (x : Value ρ) (h : MemberOK n x) : Checkable x := by
+  cases x with
+  | dict items =>
+    simp only [Checkable]
+    exact checkableItems_membersOK n items h
+  | scalar k c => cases k <;> exact h
+  | none => trivial
+  | pylist cells => trivial
+  | nwSeries cells => trivial
+  | series cells => trivial
+  | array1 cells => trivial
+  | array0 c => exact absurd h (by simp [MemberOK])
+  | array2 k cols => trivial
+  | arrayN k => exact absurd h (by simp [MemberOK])
+  | frame k cols => trivial
+  | sparse csc k cols => trivial
+  | other => exact absurd h (by simp [MemberOK])
+theorem checkableItems_membersOK (n : Nat) (items : List (Bool × Value ρ)) (h : MembersOK n items) :
+    CheckableItems items := by
+  cases items with
+  | nil => trivial
+  | cons it r =>
+    obtain ⟨hid, x⟩ := it
+    obtain ⟨h1, h2⟩ : MemberOK n x ∧ MembersOK n r := h
+    exact ⟨checkable_memberOK n x h1, checkableItems_membersOK n r h2⟩
+end
 
-theorem length_sorted (s : DropSet) : (sorted s).length = s.length := by
-  unfold sorted
-  induction s with
-  | nil => rfl
-  | cons a r ih => simp only [List.foldr_cons, length_insertSorted, ih, List.length_cons]
+theorem cellNull_lt (cells : List (Cell ρ)) (i : Nat) (h : cellNull cells i = true) :
+    i < cells.length := by
+  unfold cellNull at h
+  by_contra hge
+  rw [List.getElem?_eq_none (by omega)] at h
+  cases h
 
-/-! ### positional removal is "the rows at the kept positions" -/
-theorem dropFrom_eq (d : List Nat) (xs pre : List ρ) :
-    dropFrom d pre.length xs =
-      ((List.range' pre.length xs.length).filter (fun i => !d.contains i)).filterMap
-        (fun i => (pre ++ xs)[i]?) := by
-  induction xs generalizing pre with
-  | nil => simp [dropFrom]
-  | cons x r ih =>
-    have h := ih (pre ++ [x])
-    simp only [List.length_append, List.length_cons, List.length_nil, Nat.zero_add, List.append_assoc,
-      List.singleton_append] at h
-    simp only [dropFrom, List.length_cons, List.range'_succ, List.filter_cons]
-    by_cases hm : pre.length ∈ d
-    · simp [hm, h]
-    · simp [hm, h]
+mutual
+theorem rowNull_lt_memberOK (n : Nat) (x : Value ρ) (h : MemberOK n x) (i : Nat)
+    (hi : rowNull x i = true) : i < n := by
+  cases x with
+  | dict items =>
+    simp only [rowNull] at hi
+    exact rowNullItems_lt n items h i hi
+  | scalar k c => simp [rowNull] at hi
+  | pylist cells =>
+    have hl : cells.length = n := h
+    rw [← hl]
+    exact cellNull_lt cells i hi
+  | nwSeries cells =>
+    have hl : cells.length = n := h
+    rw [← hl]
+    exact cellNull_lt cells i hi
+  | series cells =>
+    have hl : cells.length = n := h
+    rw [← hl]
+    exact cellNull_lt cells i hi
+  | array1 cells =>
+    have hl : cells.length = n := h
+    rw [← hl]
+    exact cellNull_lt cells i hi
+  | none => simp [rowNull] at hi
+  | array0 c => simp [rowNull] at hi
+  | array2 k cols => exact absurd h (by simp [MemberOK])
+  | arrayN k => simp [rowNull] at hi
+  | frame k cols => exact absurd h (by simp [MemberOK])
+  | sparse csc k cols => exact absurd h (by simp [MemberOK])
+  | other => simp [rowNull] at hi
+theorem rowNullItems_lt (n : Nat) (items : List (Bool × Value ρ)) (h : MembersOK n items) (i : Nat)
+    (hi : rowNullItems items i = true) : i < n := by
+  cases items with
+  | nil => simp [rowNullItems] at hi
+  | cons it r =>
+    obtain ⟨hid, x⟩ := it
+    obtain ⟨h1, h2⟩ : MemberOK n x ∧ MembersOK n r := h
+    simp only [rowNullItems, Bool.or_eq_true] at hi
+    rcases hi with hi | hi
+    · exact rowNull_lt_memberOK n x h1 i hi
+    · exact rowNullItems_lt n r h2 i hi
+end
 
-theorem dropFilter_eq (xs : List ρ) (d : List Nat) :
-    dropFilter xs d = rowsAt xs (keptPositions xs.length d) := by
-  have := dropFrom_eq d xs []
-  simpa [dropFilter, rowsAt, keptPositions, List.range_eq_range'] using this
+theorem tableNull_lt (n : Nat) (cols : List (List (Cell ρ))) (i : Nat)
+    (h : tableNull n cols i = true) : i < n := by
+  unfold tableNull at h
+  simp only [Bool.and_eq_true, decide_eq_true_eq] at h
+  exact h.1
 
-theorem dropPositional_eq (xs : List ρ) (d : List Nat) (h : ∀ i ∈ d, i < xs.length) :
-    dropPositional xs d = .ok (rowsAt xs (keptPositions xs.length d)) := by
-  unfold dropPositional
-  rw [if_pos (by simpa using h), ← dropFilter_eq]
-  rfl
+theorem checkable_valueOK (n : Nat) (x : Value ρ) (h : ValueOK n x) : Checkable x := by
+  cases x <;> first | trivial | exact checkable_memberOK n _ h
 
-theorem keptPositions_congr (n : Nat) (d d' : List Nat) (h : ∀ i, i ∈ d ↔ i ∈ d') :
-    keptPositions n d = keptPositions n d' := by
-  unfold keptPositions
-  apply List.filter_congr
-  intro i _
-  simp [h i]
+theorem rowNull_lt_valueOK (n : Nat) (x : Value ρ) (h : ValueOK n x) (i : Nat)
+    (hi : rowNull x i = true) : i < n := by
+  cases x with
+  | array2 k cols =>
+    obtain ⟨hk, _⟩ : k = n ∧ ∀ c ∈ cols, c.length = n := h
+    rw [← hk]
+    exact tableNull_lt k cols i hi
+  | frame k cols =>
+    obtain ⟨hk, _⟩ : k = n ∧ ∀ c ∈ cols, c.length = n := h
+    rw [← hk]
+    exact tableNull_lt k cols i hi
+  | dict items => exact rowNull_lt_memberOK n _ h i hi
+  | scalar k c => exact rowNull_lt_memberOK n _ h i hi
+  | pylist cells => exact rowNull_lt_memberOK n _ h i hi
+  | nwSeries cells => exact rowNull_lt_memberOK n _ h i hi
+  | series cells => exact rowNull_lt_memberOK n _ h i hi
+  | array1 cells => exact rowNull_lt_memberOK n _ h i hi
+  | none => simp [rowNull] at hi
+  | array0 c => exact rowNull_lt_memberOK n _ h i hi
+  | arrayN k => exact rowNull_lt_memberOK n _ h i hi
+  | sparse csc k cols => exact rowNull_lt_memberOK n _ h i hi
+  | other => exact rowNull_lt_memberOK n _ h i hi
 
-theorem mem_keptPositions (n : Nat) (d : List Nat) (i : Nat) :
-    i ∈ keptPositions n d ↔ i < n ∧ i ∉ d := by
-  simp [keptPositions]
+theorem colCells_columns (x : Value ρ) (s : Store) (cells : List (Cell ρ))
+    (h : colCells x = some (s, cells)) :
+    columns x = [.vec cells] ∧ Checkable x ∧ ∀ i, rowNull x i = cellNull cells i := by
+  cases x <;> simp only [colCells, Option.some.injEq, Prod.mk.injEq, reduceCtorEq] at h
+  all_goals
+    obtain ⟨_, rfl⟩ := h
+    exact ⟨rfl, trivial, fun _ => rfl⟩
 
-theorem keptPositions_nil (n : Nat) : keptPositions n [] = List.range n := by
-  simp [keptPositions]
-
-theorem rowsAt_range (xs : List ρ) : rowsAt xs (List.range xs.length) = xs := by
-  have := dropFilter_eq xs []
-  rw [keptPositions_nil] at this
-  rw [← this]
-  have h : ∀ (i : Nat) (ys : List ρ), dropFrom [] i ys = ys := by
-    intro i ys
-    induction ys generalizing i with
-    | nil => rfl
-    | cons y r ih => simp [dropFrom, ih]
-  exact h 0 xs
-
-theorem length_rowsAt (xs : List ρ) (ps : List Nat) (h : ∀ i ∈ ps, i < xs.length) :
-    (rowsAt xs ps).length = ps.length := by
-  unfold rowsAt
-  induction ps with
-  | nil => rfl
-  | cons p r ih =>
-    have hp : p < xs.length := h p (by simp)
-    simp [List.getElem?_eq_getElem hp, ih (fun i hi => h i (by simp [hi]))]
-
-theorem length_rowsAt_kept (xs : List ρ) (n : Nat) (d : List Nat) (h : xs.length = n) :
-    (rowsAt xs (keptPositions n d)).length = (keptPositions n d).length := by
-  apply length_rowsAt
+/-- a well-formed factor can be null-checked, and the rows flagged are rows of the frame -/
+theorem findNulls_factorOK (n : Nat) (f : Factor ρ) (h : FactorOK n f) :
+    ∃ ns, findNulls current f.value = .ok ns ∧ nullsOf f = ns ∧ ∀ i ∈ ns, i < n := by
+  have hchk : Checkable f.value ∧ ∀ i, rowNull f.value i = true → i < n := by
+    unfold FactorOK at h
+    cases he : f.encoder with
+    | default =>
+      rw [he] at h
+      exact ⟨checkable_valueOK n _ h, rowNull_lt_valueOK n _ h⟩
+    | contrastsC =>
+      rw [he] at h
+      obtain ⟨s, cells, hc, hl⟩ := h
+      obtain ⟨_, h2, h3⟩ := colCells_columns _ s cells hc
+      refine ⟨h2, fun i hi => ?_⟩
+      rw [h3 i] at hi
+      rw [← hl]
+      exact cellNull_lt cells i hi
+    | hashed =>
+      rw [he] at h
+      obtain ⟨s, cells, hc, hl⟩ := h
+      obtain ⟨_, h2, h3⟩ := colCells_columns _ s cells hc
+      refine ⟨h2, fun i hi => ?_⟩
+      rw [h3 i] at hi
+      rw [← hl]
+      exact cellNull_lt cells i hi
+    | constant =>
+      rw [he] at h
+      obtain ⟨k, c, hv, hl⟩ := h
+      rw [hv]
+      refine ⟨?_, fun i hi => by simp [rowNull] at hi⟩
+      cases k <;> exact hl
+  obtain ⟨ns, hns⟩ := (findNulls_ok_iff f.value).2 hchk.1
+  refine ⟨ns, hns, by simp [nullsOf, hns], ?_⟩
   intro i hi
-  rw [mem_keptPositions] at hi
-  omega
-
-theorem length_le_of_nodup (n : Nat) (d : List Nat) (hn : d.Nodup) (hd : ∀ i ∈ d, i < n) :
-    d.length ≤ n := by
-  have h1 : ((List.range n).filter (fun i => d.contains i)).Perm d := by
-    apply (List.perm_ext_iff_of_nodup ((List.nodup_range).filter _) hn).2
-    intro a
-    simp only [List.mem_filter, List.mem_range, List.contains_iff_mem]
-    exact ⟨fun h => h.2, fun h => ⟨hd a h, h⟩⟩
-  have h2 := List.length_filter_le (fun i => d.contains i) (List.range n)
-  have h3 := h1.length_eq
-  simp only [List.length_range] at h2
-  omega
-
-theorem length_keptPositions (n : Nat) (d : List Nat) (hn : d.Nodup) (hd : ∀ i ∈ d, i < n) :
-    (keptPositions n d).length = n - d.length := by
-  have h1 : ((List.range n).filter (fun i => d.contains i)).Perm d := by
-    apply (List.perm_ext_iff_of_nodup ((List.nodup_range).filter _) hn).2
-    intro a
-    simp only [List.mem_filter, List.mem_range, List.contains_iff_mem]
-    exact ⟨fun h => h.2, fun h => ⟨hd a h, h⟩⟩
-  have h2 := List.length_eq_length_filter_add (l := List.range n) (fun i => d.contains i)
-  have h3 := h1.length_eq
-  unfold keptPositions
-  simp only [List.length_range] at h2
-  omega
-
+  exact hchk.2 i ((findNulls_rows current f.value ns hns i).1 hi)
 
 /-! ### encoders of the tree under test (`current`) -/
 
-theorem dropRows_current [DecidableEq L] (labels : List L) (s : Store) (xs : List ρ) (d : List Nat)
-    (h : ∀ i ∈ d, i < xs.length) :
-    dropRows current labels s xs d = .ok (rowsAt xs (keptPositions xs.length d)) := by
-  cases s <;> simp [dropRows, dropSeries, current, dropPositional_eq xs d h, dropFilter_eq]
+theorem leavesItems_map (g : List (Cell ρ) → Value ρ) (hg : ∀ c, leaves (g c) = [g c])
+    (cols : List (List (Cell ρ))) :
+    leavesItems (cols.map (fun c => (false, g c))) = cols.map g := by
+  induction cols with
+  | nil => rfl
+  | cons c r ih => simp [leavesItems, hg, ih]
 
-theorem encodeFactor_current [DecidableEq L] (labels : List L) (f : Factor ρ) (d : List Nat)
-    (h : ∀ i ∈ d, i < f.vals.length) :
-    encodeFactor current labels f d = .ok (rowsAt f.vals (keptPositions f.vals.length d)) := by
-  unfold encodeFactor
-  cases he : f.encoder with
-  | default =>
-    simp only
-    split
-    · rename_i hd
-      have : d = [] := by simpa using hd
-      subst this
-      rw [keptPositions_nil, rowsAt_range]
-    · exact dropRows_current labels f.store f.vals d h
-  | contrastsC =>
-    cases f.store <;> simp [dropSeries, current, dropPositional_eq f.vals d h]
-  | hashed => simp [current, dropPositional_eq f.vals d h]
+/-- `as_columns` + the `map_dict` traversal on a well-formed value: columns and constants only,
+and they are the columns of the reference semantics -/
+theorem asColumns_valueOK (n : Nat) (x : Value ρ) (h : ValueOK n x) (hx : isNone x = false) :
+    ∃ y, asColumns x = .ok y ∧ (∀ l ∈ leaves y, LeafOK n l) ∧
+      columns x = (leaves y).map colShape := by
+  cases x with
+  | array2 k cols =>
+    obtain ⟨_, hc⟩ : k = n ∧ ∀ c ∈ cols, c.length = n := h
+    refine ⟨_, rfl, ?_, ?_⟩
+    · simp only [leaves, leavesItems_map (fun c => Value.array1 c) (fun _ => rfl)]
+      intro l hl
+      rw [List.mem_map] at hl
+      obtain ⟨c, hcm, rfl⟩ := hl
+      exact hc c hcm
+    · simp only [leaves, leavesItems_map (fun c => Value.array1 c) (fun _ => rfl), columns,
+        List.map_map]
+      rfl
+  | frame k cols =>
+    obtain ⟨_, hc⟩ : k = n ∧ ∀ c ∈ cols, c.length = n := h
+    refine ⟨_, rfl, ?_, ?_⟩
+    · simp only [leaves, leavesItems_map (fun c => Value.series c) (fun _ => rfl)]
+      intro l hl
+      rw [List.mem_map] at hl
+      obtain ⟨c, hcm, rfl⟩ := hl
+      exact hc c hcm
+    · simp only [leaves, leavesItems_map (fun c => Value.series c) (fun _ => rfl), columns,
+        List.map_map]
+      rfl
+  | dict items => exact ⟨_, rfl, leaves_memberOK n _ h, memberColumns_eq _⟩
+  | scalar k c => exact ⟨_, rfl, leaves_memberOK n _ h, memberColumns_eq _⟩
+  | pylist cells => exact ⟨_, rfl, leaves_memberOK n _ h, memberColumns_eq _⟩
+  | nwSeries cells => exact ⟨_, rfl, leaves_memberOK n _ h, memberColumns_eq _⟩
+  | series cells => exact ⟨_, rfl, leaves_memberOK n _ h, memberColumns_eq _⟩
+  | array1 cells => exact ⟨_, rfl, leaves_memberOK n _ h, memberColumns_eq _⟩
+  | none => exact absurd hx (by simp [isNone])
+  | array0 c => exact absurd h (by simp [ValueOK, MemberOK])
+  | arrayN k => exact absurd h (by simp [ValueOK, MemberOK])
+  | sparse csc k cols => exact absurd h (by simp [ValueOK, MemberOK])
+  | other => exact absurd h (by simp [ValueOK, MemberOK])
+
+/-- one member through `if drop_rows: values = drop_nulls(values, indices=drop_rows)` -/
+theorem leaf_step [DecidableEq L] (labels : List L) (n : Nat) (l : Value ρ) (d : List Nat)
+    (hl : LeafOK n l) (hd : ∀ i ∈ d, i < n) :
+    (if d.isEmpty then .ok l else dropRowsV current labels l d) =
+      (.ok (keepRows (keptPositions n d) l) : Except Err (Value ρ)) := by
+  have hvec : ∀ (cells : List (Cell ρ)), cells.length = n → d.isEmpty = true →
+      rowsAt cells (keptPositions n d) = cells := by
+    intro cells hc he
+    have : d = [] := by simpa using he
+    subst this
+    rw [keptPositions_nil, ← hc, rowsAt_range]
+  by_cases he : d.isEmpty = true
+  · rw [if_pos he]
+    cases l with
+    | pylist cells => simp only [keepRows, hvec cells hl he]
+    | nwSeries cells => simp only [keepRows, hvec cells hl he]
+    | series cells => simp only [keepRows, hvec cells hl he]
+    | array1 cells => simp only [keepRows, hvec cells hl he]
+    | scalar k c => rfl
+    | none => exact absurd hl (by simp [LeafOK])
+    | array0 c => exact absurd hl (by simp [LeafOK])
+    | array2 k cols => exact absurd hl (by simp [LeafOK])
+    | arrayN k => exact absurd hl (by simp [LeafOK])
+    | frame k cols => exact absurd hl (by simp [LeafOK])
+    | sparse csc k cols => exact absurd hl (by simp [LeafOK])
+    | dict items => exact absurd hl (by simp [LeafOK])
+    | other => exact absurd hl (by simp [LeafOK])
+  · rw [if_neg he]
+    cases l with
+    | pylist cells => exact dropRowsV_positional labels n _ d hl hd
+    | nwSeries cells => exact dropRowsV_positional labels n _ d hl hd
+    | series cells => exact dropRowsV_positional labels n _ d hl hd
+    | array1 cells => exact dropRowsV_positional labels n _ d hl hd
+    | scalar k c => simp [dropRowsV, current, keepRows]
+    | none => exact absurd hl (by simp [LeafOK])
+    | array0 c => exact absurd hl (by simp [LeafOK])
+    | array2 k cols => exact absurd hl (by simp [LeafOK])
+    | arrayN k => exact absurd hl (by simp [LeafOK])
+    | frame k cols => exact absurd hl (by simp [LeafOK])
+    | sparse csc k cols => exact absurd hl (by simp [LeafOK])
+    | dict items => exact absurd hl (by simp [LeafOK])
+    | other => exact absurd hl (by simp [LeafOK])
+
+/-- what `_combine_columns` sees of a member that kept the rows at `K` -/
+theorem leaf_props (n : Nat) (K : List Nat) (l : Value ρ) (hl : LeafOK n l)
+    (hK : ∀ i ∈ K, i < n) :
+    isBad (keepRows K l) = false ∧
+    (∀ m, colLen? (keepRows K l) = some m → m = K.length) ∧
+    cellsOf K.length (keepRows K l) = shapeRows K (colShape l) := by
+  have hlen : ∀ (cells : List (Cell ρ)), cells.length = n → (rowsAt cells K).length = K.length :=
+    fun cells hc => length_rowsAt cells K (by rw [hc]; exact hK)
+  cases l with
+  | pylist cells =>
+    refine ⟨rfl, ?_, rfl⟩
+    intro m hm
+    simp only [keepRows, colLen?, colShape, colCells, Option.some.injEq] at hm
+    rw [← hm, hlen cells hl]
+  | nwSeries cells =>
+    refine ⟨rfl, ?_, rfl⟩
+    intro m hm
+    simp only [keepRows, colLen?, colShape, colCells, Option.some.injEq] at hm
+    rw [← hm, hlen cells hl]
+  | series cells =>
+    refine ⟨rfl, ?_, rfl⟩
+    intro m hm
+    simp only [keepRows, colLen?, colShape, colCells, Option.some.injEq] at hm
+    rw [← hm, hlen cells hl]
+  | array1 cells =>
+    refine ⟨rfl, ?_, rfl⟩
+    intro m hm
+    simp only [keepRows, colLen?, colShape, colCells, Option.some.injEq] at hm
+    rw [← hm, hlen cells hl]
+  | scalar k c =>
+    refine ⟨rfl, ?_, rfl⟩
+    intro m hm
+    simp [keepRows, colLen?, colShape, colCells] at hm
+  | none => exact absurd hl (by simp [LeafOK])
+  | array0 c => exact absurd hl (by simp [LeafOK])
+  | array2 k cols => exact absurd hl (by simp [LeafOK])
+  | arrayN k => exact absurd hl (by simp [LeafOK])
+  | frame k cols => exact absurd hl (by simp [LeafOK])
+  | sparse csc k cols => exact absurd hl (by simp [LeafOK])
+  | dict items => exact absurd hl (by simp [LeafOK])
+  | other => exact absurd hl (by simp [LeafOK])
 
 theorem mapE_ok {α β ε : Type} (f : α → Except ε β) (g : α → β) (xs : List α)
     (h : ∀ x ∈ xs, f x = .ok (g x)) : mapE f xs = .ok (xs.map g) := by
@@ -199,42 +389,380 @@ theorem mapE_ok {α β ε : Type} (f : α → Except ε β) (g : α → β) (xs 
   | cons a r ih =>
     simp only [mapE, h a (by simp), ih (fun x hx => h x (by simp [hx])), List.map_cons]
 
+theorem kept_lt (n : Nat) (d : List Nat) : ∀ i ∈ keptPositions n d, i < n := by
+  intro i hi
+  rw [mem_keptPositions] at hi
+  exact hi.1
+
+/-- Every encoder of the tree under test, on every well-formed factor: the column objects it hands
+on are neither unusable nor of a length other than the number of kept rows, and their cells are the
+cells of the factor's columns at the kept positions (constants fill the kept rows). -/
+theorem encodeFactor_current [DecidableEq L] (labels : List L) (n : Nat) (so : Bool) (f : Factor ρ)
+    (d : List Nat) (hf : FactorOK n f) (hd : ∀ i ∈ d, i < n)
+    (hK : (keptPositions n d).length = n - d.length) (hle : d.length ≤ n) :
+    ∃ xs, encodeFactor current labels n so f d = .ok xs ∧
+      (∀ x ∈ xs, isBad x = false) ∧
+      (∀ x ∈ xs, ∀ m, colLen? x = some m → m = (keptPositions n d).length) ∧
+      xs.map (cellsOf (keptPositions n d).length) =
+        (columns f.value).map (shapeRows (keptPositions n d)) := by
+  unfold FactorOK at hf
+  unfold encodeFactor
+  by_cases hnone : isNone f.value = true
+  · have hv : f.value = .none := by
+      cases hx : f.value <;> simp [hx, isNone] at hnone
+      rfl
+    refine ⟨[], by simp [hnone], by simp, by simp, ?_⟩
+    rw [hv]
+    rfl
+  have hnone' : isNone f.value = false := by simpa using hnone
+  simp only [hnone', Bool.false_eq_true, if_false]
+  unfold encodeValue
+  cases he : f.encoder with
+  | default =>
+    rw [he] at hf
+    obtain ⟨y, hy, hleaf, hcols⟩ := asColumns_valueOK n f.value hf hnone'
+    simp only [hy]
+    refine ⟨(leaves y).map (keepRows (keptPositions n d)), ?_, ?_, ?_, ?_⟩
+    · exact mapE_ok _ _ _ (fun l hl => leaf_step labels n l d (hleaf l hl) hd)
+    · intro x hx
+      rw [List.mem_map] at hx
+      obtain ⟨l, hl, rfl⟩ := hx
+      exact (leaf_props n _ l (hleaf l hl) (kept_lt n d)).1
+    · intro x hx
+      rw [List.mem_map] at hx
+      obtain ⟨l, hl, rfl⟩ := hx
+      exact (leaf_props n _ l (hleaf l hl) (kept_lt n d)).2.1
+    · rw [hcols, List.map_map, List.map_map]
+      apply List.map_congr_left
+      intro l hl
+      exact (leaf_props n _ l (hleaf l hl) (kept_lt n d)).2.2
+  | contrastsC =>
+    rw [he] at hf
+    obtain ⟨s, cells, hc, hl⟩ := hf
+    have hpos := dropPositional_eq cells d (by rw [hl]; exact hd)
+    rw [hl] at hpos
+    obtain ⟨hcol, _, _⟩ := colCells_columns _ s cells hc
+    have hlen : (rowsAt cells (keptPositions n d)).length = (keptPositions n d).length :=
+      length_rowsAt_kept cells n d hl
+    refine ⟨[.series (rowsAt cells (keptPositions n d))], ?_, ?_, ?_, ?_⟩
+    · simp only [hc]
+      cases s <;> simp [dropSeries, current, hpos]
+    · intro x hx
+      simp only [List.mem_singleton] at hx
+      subst hx
+      rfl
+    · intro x hx m hm
+      simp only [List.mem_singleton] at hx
+      subst hx
+      simp only [colLen?, colShape, colCells, Option.some.injEq] at hm
+      rw [← hm, hlen]
+    · rw [hcol]
+      rfl
+  | hashed =>
+    rw [he] at hf
+    obtain ⟨s, cells, hc, hl⟩ := hf
+    have hpos := dropPositional_eq cells d (by rw [hl]; exact hd)
+    rw [hl] at hpos
+    obtain ⟨hcol, _, _⟩ := colCells_columns _ s cells hc
+    have hlen : (rowsAt cells (keptPositions n d)).length = (keptPositions n d).length :=
+      length_rowsAt_kept cells n d hl
+    refine ⟨[.array1 (rowsAt cells (keptPositions n d))], ?_, ?_, ?_, ?_⟩
+    · simp [hc, current, hpos]
+    · intro x hx
+      simp only [List.mem_singleton] at hx
+      subst hx
+      rfl
+    · intro x hx m hm
+      simp only [List.mem_singleton] at hx
+      subst hx
+      simp only [colLen?, colShape, colCells, Option.some.injEq] at hm
+      rw [← hm, hlen]
+    · rw [hcol]
+      rfl
+  | constant =>
+    rw [he] at hf
+    obtain ⟨k, c, hv, _⟩ := hf
+    have hneg : (!so && decide (n < d.length)) = false := by
+      simp only [Bool.and_eq_false_iff, decide_eq_false_iff_not, Nat.not_lt]
+      exact Or.inr hle
+    refine ⟨[.array1 (List.replicate (n - d.length) c)], ?_, ?_, ?_, ?_⟩
+    · simp only [hv, hneg, Bool.false_eq_true, if_false]
+    · intro x hx
+      simp only [List.mem_singleton] at hx
+      subst hx
+      rfl
+    · intro x hx m hm
+      simp only [List.mem_singleton] at hx
+      subst hx
+      simp only [colLen?, colShape, colCells, Option.some.injEq, List.length_replicate] at hm
+      rw [← hm, hK]
+    · rw [hv]
+      simp only [columns, memberColumns, List.map_cons, List.map_nil, shapeRows, cellsOf, colShape,
+        colCells, hK]
+
+/-- all factors of a part -/
+theorem mapE_encode [DecidableEq L] (labels : List L) (n : Nat) (so : Bool) (d : List Nat)
+    (fs : List (Factor ρ)) (hfs : ∀ f ∈ fs, FactorOK n f) (hd : ∀ i ∈ d, i < n)
+    (hK : (keptPositions n d).length = n - d.length) (hle : d.length ≤ n) :
+    ∃ cols, mapE (fun f => encodeFactor current labels n so f d) fs = .ok cols ∧
+      (∀ x ∈ cols.flatten, isBad x = false) ∧
+      (∀ x ∈ cols.flatten, ∀ m, colLen? x = some m → m = (keptPositions n d).length) ∧
+      cols.map (fun xs => xs.map (cellsOf (keptPositions n d).length)) =
+        fs.map (fun f => (columns f.value).map (shapeRows (keptPositions n d))) := by
+  induction fs with
+  | nil => exact ⟨[], rfl, by simp, by simp, rfl⟩
+  | cons f r ih =>
+    obtain ⟨xs, h1, h2, h3, h4⟩ := encodeFactor_current labels n so f d (hfs f (by simp)) hd hK hle
+    obtain ⟨cols, i1, i2, i3, i4⟩ := ih (fun g hg => hfs g (by simp [hg]))
+    refine ⟨xs :: cols, by simp only [mapE, h1, i1], ?_, ?_, ?_⟩
+    · intro x hx
+      simp only [List.flatten_cons, List.mem_append] at hx
+      rcases hx with hx | hx
+      · exact h2 x hx
+      · exact i2 x hx
+    · intro x hx
+      simp only [List.flatten_cons, List.mem_append] at hx
+      rcases hx with hx | hx
+      · exact h3 x hx
+      · exact i3 x hx
+    · simp only [List.map_cons, h4, i4]
+
 /-! ### step 1 -/
 
-theorem evalFactors_drop (fs : List (Factor ρ)) (d : DropSet) :
-    evalFactors .drop fs d = .ok (setUpdate d (fs.flatMap (·.nulls))) := by
+theorem checkFactor_ok (p : Policy) (f : Factor ρ) (d : DropSet) (ns : List Nat)
+    (h : findNulls current f.value = .ok ns) :
+    checkFactor current p f d = checkForNulls p ns d := by
+  cases p <;> simp [checkFactor, h, checkForNulls]
+
+theorem evalFactors_drop (fs : List (Factor ρ)) (d : DropSet)
+    (hfs : ∀ f ∈ fs, ∃ ns, findNulls current f.value = .ok ns) :
+    evalFactors current .drop fs d = .ok (setUpdate d (fs.flatMap nullsOf)) := by
   induction fs generalizing d with
   | nil => simp [evalFactors, setUpdate]
   | cons f r ih =>
-    simp only [evalFactors, checkForNulls, ih, List.flatMap_cons, setUpdate_append]
+    obtain ⟨ns, hns⟩ := hfs f (by simp)
+    have hn : nullsOf f = ns := by simp [nullsOf, hns]
+    simp only [evalFactors, checkFactor_ok .drop f d ns hns, checkForNulls,
+      ih _ (fun g hg => hfs g (by simp [hg])), List.flatMap_cons, setUpdate_append, hn]
 
 theorem evalFactors_ignore (fs : List (Factor ρ)) (d : DropSet) :
-    evalFactors .ignore fs d = .ok d := by
+    evalFactors current .ignore fs d = .ok d := by
   induction fs generalizing d with
   | nil => rfl
-  | cons f r ih => simp only [evalFactors, checkForNulls, ih]
+  | cons f r ih => simp only [evalFactors, checkFactor, ih]
 
-theorem evalFactors_raise (fs : List (Factor ρ)) (d : DropSet) :
-    evalFactors .raise fs d =
-      if fs.flatMap (·.nulls) = [] then .ok d else .error .nullsPresent := by
+theorem evalFactors_raise (fs : List (Factor ρ)) (d : DropSet)
+    (hfs : ∀ f ∈ fs, ∃ ns, findNulls current f.value = .ok ns) :
+    evalFactors current .raise fs d =
+      if fs.flatMap nullsOf = [] then .ok d else .error .nullsPresent := by
   induction fs generalizing d with
   | nil => rfl
   | cons f r ih =>
-    simp only [evalFactors, checkForNulls, List.flatMap_cons, List.append_eq_nil_iff]
-    cases hn : f.nulls with
-    | nil => simp [ih]
+    obtain ⟨ns, hns⟩ := hfs f (by simp)
+    have hn : nullsOf f = ns := by simp [nullsOf, hns]
+    simp only [evalFactors, checkFactor_ok .raise f d ns hns, checkForNulls, List.flatMap_cons,
+      List.append_eq_nil_iff, hn]
+    cases ns with
+    | nil => simp [ih d (fun g hg => hfs g (by simp [hg]))]
     | cons a b => simp
+
+/-- a factor that `find_nulls` cannot handle stops step 1 under DROP and RAISE, provided the
+factors evaluated before it pass (are checkable and, under RAISE, have no nulls) -/
+theorem evalFactors_uncheckable (pol : Policy) (hpol : pol ≠ .ignore) (pre : List (Factor ρ))
+    (f : Factor ρ) (post : List (Factor ρ)) (d : DropSet) (e : Err)
+    (hpre : ∀ g ∈ pre, ∃ ns, findNulls current g.value = .ok ns ∧ (pol = .raise → ns = []))
+    (hf : findNulls current f.value = .error e) :
+    evalFactors current pol (pre ++ f :: post) d = .error e := by
+  induction pre generalizing d with
+  | nil =>
+    cases pol with
+    | ignore => exact absurd rfl hpol
+    | drop => simp [evalFactors, checkFactor, hf]
+    | raise => simp [evalFactors, checkFactor, hf]
+  | cons g r ih =>
+    obtain ⟨ns, hns, hr⟩ := hpre g (by simp)
+    have ih' := fun d' => ih d' (fun x hx => hpre x (by simp [hx]))
+    cases pol with
+    | ignore => exact absurd rfl hpol
+    | drop =>
+      simp only [List.cons_append, evalFactors, checkFactor_ok .drop g d ns hns, checkForNulls]
+      exact ih' _
+    | raise =>
+      have : ns = [] := hr rfl
+      subst this
+      simp only [List.cons_append, evalFactors, checkFactor_ok .raise g d [] hns, checkForNulls,
+        List.isEmpty_nil, if_true]
+      exact ih' _
+
+/-- how the null check of one factor fails under a policy (never under IGNORE) -/
+def FailsWith (pol : Policy) (f : Factor ρ) (e : Err) : Prop :=
+  pol ≠ .ignore ∧
+  (findNulls current f.value = .error e ∨
+   (pol = .raise ∧ e = .nullsPresent ∧ ∃ ns, findNulls current f.value = .ok ns ∧ ns ≠ []))
+
+/-- the null check of one factor passes under a policy -/
+def Passes (pol : Policy) (f : Factor ρ) : Prop :=
+  pol = .ignore ∨ ∃ ns, findNulls current f.value = .ok ns ∧ (pol = .raise → ns = [])
+
+theorem checkFactor_error_iff (pol : Policy) (f : Factor ρ) (d : DropSet) (e : Err) :
+    checkFactor current pol f d = .error e ↔ FailsWith pol f e := by
+  unfold FailsWith
+  cases pol with
+  | ignore => simp [checkFactor]
+  | drop =>
+    cases hn : findNulls current f.value with
+    | error e' => simp [checkFactor, hn]
+    | ok ns => simp [checkFactor, hn, checkForNulls]
+  | raise =>
+    cases hn : findNulls current f.value with
+    | error e' => simp [checkFactor, hn]
+    | ok ns =>
+      cases ns with
+      | nil => simp [checkFactor, hn, checkForNulls]
+      | cons a b =>
+        simp only [checkFactor, hn, checkForNulls, List.isEmpty_cons, Bool.false_eq_true, if_false,
+          Except.error.injEq, ne_eq, reduceCtorEq, not_false_eq_true, false_or, true_and,
+          Except.ok.injEq, exists_eq_left', List.cons_ne_nil, and_true]
+        exact ⟨fun h => h.symm, fun h => h.symm⟩
+
+theorem checkFactor_ok_iff (pol : Policy) (f : Factor ρ) (d : DropSet) :
+    (∃ d', checkFactor current pol f d = .ok d') ↔ Passes pol f := by
+  unfold Passes
+  cases pol with
+  | ignore => simp [checkFactor]
+  | drop =>
+    cases hn : findNulls current f.value with
+    | error e' => simp [checkFactor, hn]
+    | ok ns => simp [checkFactor, hn, checkForNulls]
+  | raise =>
+    cases hn : findNulls current f.value with
+    | error e' => simp [checkFactor, hn]
+    | ok ns =>
+      cases ns with
+      | nil => simp [checkFactor, hn, checkForNulls]
+      | cons a b => simp [checkFactor, hn, checkForNulls]
+
+/-- Step 1 fails exactly when some factor fails its null check while all factors evaluated before
+it pass — and then with THAT factor's error. -/
+theorem evalFactors_error_iff (pol : Policy) (fs : List (Factor ρ)) (d : DropSet) (e : Err) :
+    evalFactors current pol fs d = .error e ↔
+      ∃ pre f post, fs = pre ++ f :: post ∧ (∀ g ∈ pre, Passes pol g) ∧ FailsWith pol f e := by
+  induction fs generalizing d with
+  | nil => simp [evalFactors]
+  | cons g r ih =>
+    simp only [evalFactors]
+    cases hc : checkFactor current pol g d with
+    | error e' =>
+      constructor
+      · intro h
+        simp only [Except.error.injEq] at h
+        subst h
+        exact ⟨[], g, r, rfl, by simp, (checkFactor_error_iff pol g d e').1 hc⟩
+      · rintro ⟨pre, f, post, hsplit, hpre, hf⟩
+        cases pre with
+        | nil =>
+          simp only [List.nil_append, List.cons.injEq] at hsplit
+          obtain ⟨rfl, rfl⟩ := hsplit
+          have := (checkFactor_error_iff pol g d e).2 hf
+          rw [hc] at this
+          simpa using this
+        | cons x pre' =>
+          simp only [List.cons_append, List.cons.injEq] at hsplit
+          obtain ⟨rfl, _⟩ := hsplit
+          obtain ⟨d', hd'⟩ := (checkFactor_ok_iff pol g d).2 (hpre g (by simp))
+          rw [hc] at hd'
+          cases hd'
+    | ok d' =>
+      simp only
+      rw [ih d']
+      constructor
+      · rintro ⟨pre, f, post, rfl, hpre, hf⟩
+        refine ⟨g :: pre, f, post, rfl, ?_, hf⟩
+        intro x hx
+        rcases List.mem_cons.mp hx with rfl | hx
+        · exact (checkFactor_ok_iff pol x d).1 ⟨d', hc⟩
+        · exact hpre x hx
+      · rintro ⟨pre, f, post, hsplit, hpre, hf⟩
+        cases pre with
+        | nil =>
+          simp only [List.nil_append, List.cons.injEq] at hsplit
+          obtain ⟨rfl, rfl⟩ := hsplit
+          have := (checkFactor_error_iff pol g d e).2 hf
+          rw [hc] at this
+          cases this
+        | cons x pre' =>
+          simp only [List.cons_append, List.cons.injEq] at hsplit
+          obtain ⟨rfl, rfl⟩ := hsplit
+          exact ⟨pre', f, post, rfl, fun y hy => hpre y (by simp [hy]), hf⟩
+
+/-- every column of a well-formed factor has one cell per row -/
+theorem columns_lengths (n : Nat) (f : Factor ρ) (hf : FactorOK n f) :
+    ∀ s ∈ columns f.value, ∀ cells, s = .vec cells → cells.length = n := by
+  unfold FactorOK at hf
+  have hcol : ∀ (st : Store) (cells : List (Cell ρ)), colCells f.value = some (st, cells) →
+      cells.length = n → ∀ s ∈ columns f.value, ∀ cs, s = .vec cs → cs.length = n := by
+    intro st cells hc hl s hs cs hcs
+    rw [(colCells_columns _ st cells hc).1, List.mem_singleton] at hs
+    rw [hs] at hcs
+    cases hcs
+    exact hl
+  cases he : f.encoder with
+  | default =>
+    rw [he] at hf
+    by_cases hnone : isNone f.value = true
+    · have hv : f.value = .none := by
+        cases hx : f.value <;> simp [hx, isNone] at hnone
+        rfl
+      intro s hs
+      rw [hv] at hs
+      simp [columns] at hs
+    obtain ⟨y, _, hleaf, hcols⟩ := asColumns_valueOK n f.value hf (by simpa using hnone)
+    intro s hs cells hsc
+    rw [hcols, List.mem_map] at hs
+    obtain ⟨l, hl, hls⟩ := hs
+    have hL := hleaf l hl
+    subst hsc
+    cases l <;> simp only [colShape, colCells, reduceCtorEq, ColShape.vec.injEq] at hls <;>
+      (subst hls; exact hL)
+  | contrastsC =>
+    rw [he] at hf
+    obtain ⟨st, cells, hc, hl⟩ := hf
+    exact hcol st cells hc hl
+  | hashed =>
+    rw [he] at hf
+    obtain ⟨st, cells, hc, hl⟩ := hf
+    exact hcol st cells hc hl
+  | constant =>
+    rw [he] at hf
+    obtain ⟨k, c, hv, _⟩ := hf
+    intro s hs cells hsc
+    rw [hv] at hs
+    simp only [columns, memberColumns, List.mem_singleton] at hs
+    rw [hs] at hsc
+    cases hsc
 
 /-! ### one part -/
 
-theorem combine_ok (v : Variant) (n : Nat) (d : List Nat) (icpt : Option Nat) (cols : List (List ρ))
-    (idx : IndexOut L) (k : Nat) (hic : ∀ x, icpt = some x → x = k) (hcols : ∀ c ∈ cols, c.length = k)
+theorem combine_ok (v : Variant) (n : Nat) (d : List Nat) (icpt : Option Nat)
+    (cols : List (List (Value ρ))) (idx : IndexOut L) (k : Nat)
+    (hic : ∀ x, icpt = some x → x = k)
+    (hbad : ∀ x ∈ cols.flatten, isBad x = false)
+    (hcols : ∀ x ∈ cols.flatten, ∀ m, colLen? x = some m → m = k)
     (hidx : ∀ ls, idx = .labels ls → ls.length = k)
     (hempty : (if v.emptyHonours then n - d.length else n) = k) :
     combine v n d icpt cols idx =
-      .ok ⟨k, icpt, cols, match idx with | .range _ => .range k | .labels ls => .labels ls | .none => .none⟩ := by
+      .ok ⟨k, icpt, cols.map (fun xs => xs.map (cellsOf k)),
+        match idx with | .range _ => .range k | .labels ls => .labels ls | .none => .none⟩ := by
   unfold combine
-  generalize hlens : colLens icpt cols = lens
+  have hb : cols.flatten.any isBad = false := by
+    rw [Bool.eq_false_iff]
+    intro h
+    rw [List.any_eq_true] at h
+    obtain ⟨x, hx, hxb⟩ := h
+    rw [hbad x hx] at hxb
+    cases hxb
+  simp only [hb, Bool.false_eq_true, if_false]
+  generalize hlens : colLens icpt cols.flatten = lens
   have hall : ∀ x ∈ lens, x = k := by
     intro x hx
     rw [← hlens] at hx
@@ -244,9 +772,9 @@ theorem combine_ok (v : Variant) (n : Nat) (d : List Nat) (icpt : Option Nat) (c
     · cases icpt with
       | none => simp at hx
       | some y => simp at hx; rw [hx]; exact hic y rfl
-    · rw [List.mem_map] at hx
-      obtain ⟨c, hc, rfl⟩ := hx
-      exact hcols c hc
+    · rw [List.mem_filterMap] at hx
+      obtain ⟨c, hc, hm⟩ := hx
+      exact hcols c hc x hm
   cases lens with
   | nil =>
     cases idx with
@@ -295,22 +823,10 @@ theorem outIndex_current [DecidableEq L] (labels : List L) (n : Nat) (m : Mat) (
 
 theorem buildModelMatrix_current [DecidableEq L] (labels : List L) (n : Nat) (o : Output)
     (d : List Nat) (p : Part ρ) (hl : labels.length = n)
-    (hp : ∀ f ∈ p.factors, f.vals.length = n) (hK : (keptPositions n d).length = n - d.length)
+    (hp : ∀ f ∈ p.factors, FactorOK n f) (hK : (keptPositions n d).length = n - d.length)
     (hle : d.length ≤ n) (hd : ∀ i ∈ d, i < n) :
     buildModelMatrix current labels n o d p = .ok (expectedMatrix labels (keptPositions n d) o p) := by
-  have henc : mapE (fun f => encodeFactor current labels f d) p.factors
-      = .ok (p.factors.map (fun f => rowsAt f.vals (keptPositions n d))) := by
-    apply mapE_ok
-    intro f hf
-    have := encodeFactor_current labels f d (by rw [hp f hf]; exact hd)
-    rw [hp f hf] at this
-    exact this
-  have hcols : ∀ c ∈ p.factors.map (fun f => rowsAt f.vals (keptPositions n d)),
-      c.length = (keptPositions n d).length := by
-    intro c hc
-    rw [List.mem_map] at hc
-    obtain ⟨f, hf, rfl⟩ := hc
-    exact length_rowsAt_kept f.vals n d (hp f hf)
+  obtain ⟨cols, henc, hbad, hlen, hcells⟩ := mapE_encode labels n (o == .sparse) d p.factors hp hd hK hle
   have hlab : (rowsAt labels (keptPositions n d)).length = (keptPositions n d).length :=
     length_rowsAt_kept labels n d hl
   unfold buildModelMatrix
@@ -320,13 +836,284 @@ theorem buildModelMatrix_current [DecidableEq L] (labels : List L) (n : Nat) (o 
     exact Or.inr hle
   simp only [hneg, Bool.false_eq_true, if_false, outIndex_current labels n p.mat o d hl hd]
   rw [combine_ok current n d _ _ _ (keptPositions n d).length
-    (by intro x hx; split at hx <;> simp at hx; omega) hcols
+    (by intro x hx; split at hx <;> simp at hx; omega) hbad hlen
     (by
       intro ls hls
       cases o <;> cases hm : p.mat <;> simp [hm] at hls <;> (subst hls; exact hlab))
     (by simp [current, hK])]
   unfold expectedMatrix
+  rw [hcells]
   cases o <;> cases hm : p.mat <;> simp [hK]
+
+/-! ### which errors the build stage can produce -/
+
+/-- the errors of the null check (step 1) -/
+def NullCheckErr (e : Err) : Prop :=
+  e = .nullsPresent ∨ e = .constantNull ∨ e = .tooManyDims ∨ e = .noFindNulls
+
+/-- the errors of encoding and combining columns (step 3) -/
+def BuildErr (e : Err) : Prop :=
+  e = .indexError ∨ e = .noDropRows ∨ e = .notColumns ∨ e = .negativeDimensions ∨ e = .lengthMismatch
+
+theorem buildErr_not_nullCheck (e : Err) (h : BuildErr e) : ¬ NullCheckErr e := by
+  rcases h with rfl | rfl | rfl | rfl | rfl <;> (intro hn; rcases hn with h | h | h | h <;> cases h)
+
+theorem dropPositional_err (xs : List ρ) (d : List Nat) (e : Err)
+    (h : dropPositional xs d = .error e) : e = .indexError := by
+  unfold dropPositional at h
+  split at h
+  · cases h
+  · cases h; rfl
+
+theorem dropRows_current_err [DecidableEq L] (labels : List L) (s : Store) (xs : List ρ)
+    (d : List Nat) (e : Err) (h : dropRows current labels s xs d = .error e) : e = .indexError := by
+  cases s <;> simp only [dropRows, dropSeries, current, Bool.false_eq_true, if_false, reduceCtorEq] at h
+  · exact dropPositional_err xs d e h
+  · exact dropPositional_err xs d e h
+
+theorem dropTable_err (n : Nat) (cols : List (List ρ)) (d : List Nat) (e : Err)
+    (h : dropTable n cols d = .error e) : e = .indexError := by
+  unfold dropTable at h
+  split at h
+  · cases h
+  · cases h; rfl
+
+theorem dropRowsV_current_err [DecidableEq L] (labels : List L) (x : Value ρ) (d : List Nat) (e : Err)
+    (h : dropRowsV current labels x d = .error e) : e = .indexError ∨ e = .noDropRows := by
+  cases x with
+  | pylist cells =>
+    simp only [dropRowsV] at h
+    cases hr : dropRows current labels .pylist cells d with
+    | error e' => rw [hr] at h; cases h; exact Or.inl (dropRows_current_err labels _ cells d e hr)
+    | ok r => rw [hr] at h; cases h
+  | nwSeries cells =>
+    simp only [dropRowsV] at h
+    cases hr : dropRows current labels .nwSeries cells d with
+    | error e' => rw [hr] at h; cases h; exact Or.inl (dropRows_current_err labels _ cells d e hr)
+    | ok r => rw [hr] at h; cases h
+  | series cells =>
+    simp only [dropRowsV] at h
+    cases hr : dropRows current labels .series cells d with
+    | error e' => rw [hr] at h; cases h; exact Or.inl (dropRows_current_err labels _ cells d e hr)
+    | ok r => rw [hr] at h; cases h
+  | array1 cells =>
+    simp only [dropRowsV] at h
+    cases hr : dropRows current labels .ndarray cells d with
+    | error e' => rw [hr] at h; cases h; exact Or.inl (dropRows_current_err labels _ cells d e hr)
+    | ok r => rw [hr] at h; cases h
+  | array0 c => simp only [dropRowsV] at h; cases h; exact Or.inl rfl
+  | array2 k cols =>
+    simp only [dropRowsV] at h
+    cases hr : dropTable k cols d with
+    | error e' => rw [hr] at h; cases h; exact Or.inl (dropTable_err k cols d e hr)
+    | ok r => rw [hr] at h; cases h
+  | arrayN k =>
+    simp only [dropRowsV] at h
+    cases hr : dropTable k ([] : List (List (Cell ρ))) d with
+    | error e' => rw [hr] at h; cases h; exact Or.inl (dropTable_err k _ d e hr)
+    | ok r => rw [hr] at h; cases h
+  | sparse csc k cols =>
+    simp only [dropRowsV] at h
+    cases hr : dropTable k cols d with
+    | error e' => rw [hr] at h; cases h; exact Or.inl (dropTable_err k cols d e hr)
+    | ok r => rw [hr] at h; cases h
+  | scalar k c => simp [dropRowsV, current] at h
+  | none => simp only [dropRowsV] at h; cases h; exact Or.inr rfl
+  | frame k cols => simp only [dropRowsV] at h; cases h; exact Or.inr rfl
+  | dict items => simp only [dropRowsV] at h; cases h; exact Or.inr rfl
+  | other => simp only [dropRowsV] at h; cases h; exact Or.inr rfl
+
+theorem mapE_err {α β ε : Type} (f : α → Except ε β) (xs : List α) (e : ε)
+    (h : mapE f xs = .error e) : ∃ x ∈ xs, f x = .error e := by
+  induction xs with
+  | nil => cases h
+  | cons a r ih =>
+    simp only [mapE] at h
+    cases hf : f a with
+    | error e' =>
+      rw [hf] at h
+      cases h
+      exact ⟨a, by simp, hf⟩
+    | ok b =>
+      rw [hf] at h
+      simp only at h
+      cases hr : mapE f r with
+      | error e' =>
+        rw [hr] at h
+        cases h
+        obtain ⟨x, hx, hfx⟩ := ih hr
+        exact ⟨x, by simp [hx], hfx⟩
+      | ok bs => rw [hr] at h; cases h
+
+theorem asColumns_err (x : Value ρ) (e : Err) (h : asColumns x = .error e) : e = .notColumns := by
+  cases x with
+  | array0 c => simp only [asColumns] at h; cases h; rfl
+  | arrayN k => simp only [asColumns] at h; cases h; rfl
+  | sparse csc k cols => cases csc <;> simp [asColumns] at h
+  | none => simp [asColumns] at h
+  | scalar k c => simp [asColumns] at h
+  | pylist cells => simp [asColumns] at h
+  | nwSeries cells => simp [asColumns] at h
+  | series cells => simp [asColumns] at h
+  | array1 cells => simp [asColumns] at h
+  | array2 k cols => simp [asColumns] at h
+  | frame k cols => simp [asColumns] at h
+  | dict items => simp [asColumns] at h
+  | other => simp [asColumns] at h
+
+theorem encodeFactor_current_err [DecidableEq L] (labels : List L) (n : Nat) (so : Bool) (f : Factor ρ)
+    (d : List Nat) (e : Err) (h : encodeFactor current labels n so f d = .error e) : BuildErr e := by
+  unfold encodeFactor at h
+  split at h
+  · cases h
+  unfold encodeValue at h
+  cases he : f.encoder with
+  | default =>
+    rw [he] at h
+    simp only at h
+    cases ha : asColumns f.value with
+    | error e' =>
+      rw [ha] at h
+      cases h
+      exact Or.inr (Or.inr (Or.inl (asColumns_err _ _ ha)))
+    | ok y =>
+      rw [ha] at h
+      simp only at h
+      obtain ⟨l, _, hl⟩ := mapE_err _ _ _ h
+      split at hl
+      · cases hl
+      · rcases dropRowsV_current_err labels l d e hl with h1 | h1
+        · exact Or.inl h1
+        · exact Or.inr (Or.inl h1)
+  | contrastsC =>
+    rw [he] at h
+    simp only at h
+    cases hc : colCells f.value with
+    | none =>
+      rw [hc] at h
+      cases h
+      exact Or.inr (Or.inr (Or.inl rfl))
+    | some sc =>
+      obtain ⟨s, cells⟩ := sc
+      rw [hc] at h
+      cases s <;> simp only [dropSeries, current, Bool.false_eq_true, if_false] at h
+      all_goals
+        first
+        | (cases hp : dropPositional cells d with
+           | error e' => rw [hp] at h; cases h; exact Or.inl (dropPositional_err _ _ _ hp)
+           | ok r => rw [hp] at h; cases h)
+  | hashed =>
+    rw [he] at h
+    simp only at h
+    cases hc : colCells f.value with
+    | none =>
+      rw [hc] at h
+      cases h
+      exact Or.inr (Or.inr (Or.inl rfl))
+    | some sc =>
+      obtain ⟨s, cells⟩ := sc
+      rw [hc] at h
+      simp only [current, if_true] at h
+      cases hp : dropPositional cells d with
+      | error e' => rw [hp] at h; cases h; exact Or.inl (dropPositional_err _ _ _ hp)
+      | ok r => rw [hp] at h; cases h
+  | constant =>
+    rw [he] at h
+    simp only at h
+    cases hv : f.value with
+    | scalar k c =>
+      rw [hv] at h
+      simp only at h
+      split at h
+      · cases h; exact Or.inr (Or.inr (Or.inr (Or.inl rfl)))
+      · cases h
+    | none => rw [hv] at h; cases h; exact Or.inr (Or.inr (Or.inl rfl))
+    | pylist cells => rw [hv] at h; cases h; exact Or.inr (Or.inr (Or.inl rfl))
+    | nwSeries cells => rw [hv] at h; cases h; exact Or.inr (Or.inr (Or.inl rfl))
+    | series cells => rw [hv] at h; cases h; exact Or.inr (Or.inr (Or.inl rfl))
+    | array0 c => rw [hv] at h; cases h; exact Or.inr (Or.inr (Or.inl rfl))
+    | array1 cells => rw [hv] at h; cases h; exact Or.inr (Or.inr (Or.inl rfl))
+    | array2 k cols => rw [hv] at h; cases h; exact Or.inr (Or.inr (Or.inl rfl))
+    | arrayN k => rw [hv] at h; cases h; exact Or.inr (Or.inr (Or.inl rfl))
+    | frame k cols => rw [hv] at h; cases h; exact Or.inr (Or.inr (Or.inl rfl))
+    | sparse csc k cols => rw [hv] at h; cases h; exact Or.inr (Or.inr (Or.inl rfl))
+    | dict items => rw [hv] at h; cases h; exact Or.inr (Or.inr (Or.inl rfl))
+    | other => rw [hv] at h; cases h; exact Or.inr (Or.inr (Or.inl rfl))
+
+theorem outIndex_current_err [DecidableEq L] (labels : List L) (n : Nat) (m : Mat) (o : Output)
+    (d : List Nat) (e : Err) (h : outIndex current labels n m o d = .error e) : e = .indexError := by
+  cases o <;> cases m <;> simp only [outIndex, current, dropSeries, Bool.false_eq_true, if_false,
+    if_true, reduceCtorEq] at h
+  all_goals
+    split at h
+    · cases h
+    · cases hp : dropPositional labels d with
+      | error e' => rw [hp] at h; cases h; exact dropPositional_err _ _ _ hp
+      | ok r => rw [hp] at h; cases h
+
+theorem combine_err (v : Variant) (n : Nat) (d : List Nat) (icpt : Option Nat)
+    (cols : List (List (Value ρ))) (idx : IndexOut L) (e : Err)
+    (h : combine v n d icpt cols idx = .error e) : e = .notColumns ∨ e = .lengthMismatch := by
+  unfold combine at h
+  split at h
+  · cases h; exact Or.inl rfl
+  · split at h
+    · cases idx <;> simp at h
+    · split at h
+      · cases idx with
+        | none => simp at h
+        | range r => simp at h
+        | labels ls =>
+          simp only at h
+          split at h
+          · cases h
+          · cases h; exact Or.inr rfl
+      · cases h; exact Or.inr rfl
+
+theorem buildModelMatrix_current_err [DecidableEq L] (labels : List L) (n : Nat) (o : Output)
+    (d : List Nat) (p : Part ρ) (e : Err)
+    (h : buildModelMatrix current labels n o d p = .error e) : BuildErr e := by
+  unfold buildModelMatrix at h
+  cases hm : mapE (fun f => encodeFactor current labels n (o == .sparse) f d) p.factors with
+  | error e' =>
+    rw [hm] at h
+    cases h
+    obtain ⟨f, _, hf⟩ := mapE_err _ _ _ hm
+    exact encodeFactor_current_err labels n _ f d e hf
+  | ok cols =>
+    rw [hm] at h
+    simp only at h
+    split at h
+    · cases h; exact Or.inr (Or.inr (Or.inr (Or.inl rfl)))
+    · cases ho : outIndex current labels n p.mat o d with
+      | error e' =>
+        rw [ho] at h
+        cases h
+        exact Or.inl (outIndex_current_err labels n p.mat o d e ho)
+      | ok idx =>
+        rw [ho] at h
+        rcases combine_err current n d _ cols idx e h with h1 | h1
+        · exact Or.inr (Or.inr (Or.inl h1))
+        · exact Or.inr (Or.inr (Or.inr (Or.inr h1)))
+
+/-- A materializer call fails with an error of the null check exactly when step 1 does. -/
+theorem getModelMatrix_nullCheck_iff [DecidableEq L] (labels : List L) (n : Nat) (pol : Policy)
+    (o : Output) (parts : List (Part ρ)) (dropIn : Option DropSet) (e : Err) (he : NullCheckErr e) :
+    getModelMatrix current labels n pol o parts dropIn = .error e ↔
+      evalFactors current pol (parts.flatMap (·.factors)) (initialSet dropIn) = .error e := by
+  unfold getModelMatrix
+  cases hev : evalFactors current pol (parts.flatMap (·.factors)) (initialSet dropIn) with
+  | error e' => simp
+  | ok d1 =>
+    simp only [reduceCtorEq, iff_false]
+    cases hm : mapE (buildModelMatrix current labels n o (sorted d1)) parts with
+    | error e' =>
+      simp only [Except.error.injEq]
+      intro hee
+      subst hee
+      obtain ⟨p, _, hp⟩ := mapE_err _ _ _ hm
+      exact buildErr_not_nullCheck _ (buildModelMatrix_current_err labels n o _ p _ hp) he
+    | ok ms => simp
 
 /-! ### `FormulaMaterializer.get_model_matrix` and the entry points -/
 
@@ -336,7 +1123,7 @@ theorem initialSet_eq (dropIn : Option DropSet) : initialSet dropIn = callerRows
 theorem getModelMatrix_of_eval [DecidableEq L] (labels : List L) (n : Nat) (pol : Policy)
     (o : Output) (parts : List (Part ρ)) (dropIn : Option DropSet) (d1 : DropSet)
     (hl : labels.length = n) (hwf : WF n parts)
-    (he : evalFactors pol (parts.flatMap (·.factors)) (callerRows dropIn) = .ok d1)
+    (he : evalFactors current pol (parts.flatMap (·.factors)) (callerRows dropIn) = .ok d1)
     (hn : d1.Nodup) (hd : ∀ i ∈ d1, i < n) :
     getModelMatrix current labels n pol o parts dropIn =
       .ok (parts.map (expectedMatrix labels (keptPositions n d1) o), d1) := by
@@ -350,7 +1137,7 @@ theorem getModelMatrix_of_eval [DecidableEq L] (labels : List L) (n : Nat) (pol 
     (expectedMatrix labels (keptPositions n d1) o) parts]
   intro p hp
   rw [← hcongr]
-  exact buildModelMatrix_current labels n o (sorted d1) p hl (fun f hf => (hwf p hp f hf).1) hK
+  exact buildModelMatrix_current labels n o (sorted d1) p hl (fun f hf => hwf p hp f hf) hK
     (by rw [length_sorted]; exact length_le_of_nodup n d1 hn hd)
     (fun i hi => hd i ((mem_sorted d1 i).1 hi))
 
@@ -360,7 +1147,9 @@ theorem mem_allNulls_lt (n : Nat) (parts : List (Part ρ)) (hwf : WF n parts) :
   unfold allNulls at hi
   simp only [List.mem_flatMap] at hi
   obtain ⟨f, ⟨p, hp, hf⟩, hif⟩ := hi
-  exact (hwf p hp f hf).2 i hif
+  obtain ⟨ns, _, hn, hlt⟩ := findNulls_factorOK n f (hwf p hp f hf)
+  rw [hn] at hif
+  exact hlt i hif
 
 theorem callerRows_ok (n : Nat) (c : Option DropSet) (h : CallerOK n c) :
     (callerRows c).Nodup ∧ ∀ i ∈ callerRows c, i < n := by
@@ -411,9 +1200,12 @@ theorem perPartCalls_drop [DecidableEq L] (labels : List L) (n : Nat) (o : Outpu
       exact hwf q (by simp)
     have hwfr : WF n r := fun q hq => hwf q (by simp [hq])
     obtain ⟨hcn, hcr⟩ := callerRows_ok n d hc
-    have hev : evalFactors .drop ([p].flatMap (·.factors)) (callerRows d)
+    have hev : evalFactors current .drop ([p].flatMap (·.factors)) (callerRows d)
         = .ok (setUpdate (callerRows d) (partNulls p)) := by
-      rw [evalFactors_drop]
+      rw [evalFactors_drop _ _ (fun f hf => by
+        simp only [List.flatMap_cons, List.flatMap_nil, List.append_nil] at hf
+        obtain ⟨ns, hns, _⟩ := findNulls_factorOK n f (hwf p (by simp) f hf)
+        exact ⟨ns, hns⟩)]
       simp [partNulls]
     have hn := nodup_setUpdate (partNulls p) (callerRows d) hcn
     have hd : ∀ i ∈ setUpdate (callerRows d) (partNulls p), i < n := by
